@@ -59,20 +59,21 @@ def validate_options(options):  # noqa: C901
             raise SQLParseError('Invalid value for truncate_char: '
                                 '{!r}'.format(options['truncate_char']))
 
-    indent_columns = options.get('indent_columns', False)
-    if indent_columns not in [True, False]:
-        raise SQLParseError('Invalid value for indent_columns: '
-                            '{!r}'.format(indent_columns))
-    elif indent_columns:
-        options['reindent'] = True  # enforce reindent
-    options['indent_columns'] = indent_columns
-
     reindent = options.get('reindent', False)
     if reindent not in [True, False]:
         raise SQLParseError('Invalid value for reindent: '
                             '{!r}'.format(reindent))
     elif reindent:
         options['strip_whitespace'] = True
+
+    indent_columns = options.get('indent_columns', False)
+    if indent_columns not in [True, False]:
+        raise SQLParseError('Invalid value for indent_columns: '
+                            '{!r}'.format(indent_columns))
+    elif indent_columns:
+        options['reindent'] = True  # enforce reindent
+        options['strip_whitespace'] = True
+    options['indent_columns'] = indent_columns
 
     reindent_aligned = options.get('reindent_aligned', False)
     if reindent_aligned not in [True, False]:
